@@ -233,6 +233,29 @@ func (ef *errFlow) wraps(f *Fn, d ast.Expr) (bool, string) {
 	if !returnsErr {
 		return false, ""
 	}
+	// a helper of the module that hands its error argument back unchanged, or maps it to a
+	// sentinel (`if err == io.EOF { err = errTruncate }; return err`), is not a wrap
+	if g := ef.w.calleeFn(f, call); g != nil && g.Decl != nil {
+		through := true
+		for _, e := range ef.errExprs(g) {
+			for _, d := range ef.defs(g, e.e, e.at, 0) {
+				switch x := unparen(d).(type) {
+				case *ast.Ident:
+					// parameter, nil, or a package-level sentinel
+					_ = x
+				case *ast.SelectorExpr:
+					if v, ok := ef.w.Use(x.Sel).(*types.Var); !ok || v.IsField() {
+						through = false
+					}
+				default:
+					through = false
+				}
+			}
+		}
+		if through {
+			return false, ""
+		}
+	}
 	for _, a := range call.Args {
 		if atv, ok := ef.w.Info.Types[a]; ok && isErrorType(atv.Type) {
 			for _, d2 := range ef.defs(f, a, call, 0) {
